@@ -340,6 +340,9 @@ for n in ["u30_get_consults_commit_overlay_then_column", "u30_get_size_is_the_le
 for n in ["u30_btree_get_consults_commit_overlay_then_tree", "u30_btree_get_size_is_the_length_of_what_get_returns"]:
     M_DB.harnesses.append(H(n, "U30", kind="bounded", shape="DbInner::%s on a database with one btree column; overlay state and tree content scripted (arbitrary)" % ("get_size" if "size" in n else "get"),
                             bound="one btree column; CommitOverlay::btree_get and BTreeTable::get by contract"))
+for n in ["u38_node_read_from_overlay_then_column_and_unpacked", "u38_node_children_read_from_overlay_then_column"]:
+    M_DB.harnesses.append(H(n, "U38", kind="bounded", shape="DbInner::%s on a multitree column; node with 2 data bytes and 1 child, contents and address arbitrary" % ("get_node_children" if "children" in n else "get_node"),
+                            bound="one node shape (2 data bytes, 1 child); CommitOverlay::get_address and HashColumn::get_value by contract; unpack_node_* real"))
 for n in ["u31_data_flushed_before_logs_are_reclaimed", "u31_clean_all_logs_flushes_first"]:
     M_DB.harnesses.append(H(n, "U31", kind="bounded", shape="DbInner::%s; dirty-log count, sync_data and flush outcome arbitrary" % ("clean_all_logs" if "all" in n else "clean_logs"),
                             bound="one column; Column::flush, Log::{num_dirty_logs,clean_logs} by contract"))
@@ -446,7 +449,7 @@ PROPS["C13"] = {
 }
 
 PROPS["C10"] = {
-    "kani_units": ["U11", "U14"],
+    "kani_units": ["U11", "U14", "U38"],
     "verus_units": ["tree_deref"],
     "syntactic": ["claim_tree_values_checks_before_claim"],
     "level": "other",
@@ -537,6 +540,8 @@ UNIT_META = {
                                    "IndexedChangeSet / BTreeChangeSet::{check, copy_to_overlay} carry the contracts proved by unit overlay_publish (check accepts exactly valid change sets; copy_to_overlay cannot fail on a valid one); the byte-counter preconditions of copy_to_overlay are assumed",
                                    "every column id named by the transaction indexes the overlay vector (precondition; commit_changes indexes options.columns with the same ids)",
                                    "statements of commit_raw before the first validation loop (queue-full wait, background-error gate: U34) are outside the fragment"]},
+    "U38": {"functions": ["db::DbInner::{get_node,get_node_children}", "column::{unpack_node_data,unpack_node_children}"],
+            "assumes": ["CommitOverlay::get_address (std HashMap lookup) and HashColumn::get_value replaced by contracts (scripted)", "one node shape: 2 data bytes, 1 child"]},
     "U31": {"functions": ["db::DbInner::{clean_logs,clean_all_logs}"], "assumes": ["Column::flush (msync / fsync of every table of the column), Log::num_dirty_logs and Log::clean_logs (truncate and recycle log files) replaced by contracts (recorders)"]},
     "U33": {"functions": ["db::DbInner::kill_logs"], "assumes": ["DbInner::{process_commits,flush_logs,enact_logs,clean_all_logs} and Log::kill_logs replaced by contracts over ghost stage counters: process_commits moves one queued commit into the appending log, flush_logs makes the appending log readable, enact_logs applies one readable record, each reporting whether it did anything"]},
     "U29": {"functions": ["column::HashColumn::{get,get_size}"], "assumes": ["HashColumn::get_in_index replaced by its contract (proved against its own callees by Verus, unit lookup_chain)"]},
@@ -718,3 +723,4 @@ PROPS["C17"] = {
 PROPS["C07"]["claim"] = PROPS["C07"]["claim"].replace("iter_values visits every value table and reports each live value with its count.", "iter_values visits every value table (bounded) and ValueTable::iter_while reports, for any fill mark, exactly the live values of slots 1..written in slot order with their counts, passes over slots that are not value heads, stops only on the client's request or a read failure, and never swallows a read failure (Verus, unbounded).")
 PROPS["C07"]["does_not_cover"] = ["histories, restarts", "frame of change_ref (other entry bytes untouched)", "the chain reader under iter_while (bounded under C06)", "btree-indexed ref-counted columns"]
 PROPS["C04"]["claim"] = "Point reads: DbInner::get / get_size on a btree column consult the commit overlay first (a queued value wins, a queued removal hides the stored value) and otherwise return what the tree holds, get_size being the length of what get returns (Kani, bounded: overlay lookup and BTreeTable::get by contract). " + PROPS["C04"]["claim"]
+PROPS["C10"]["claim"] = PROPS["C10"]["claim"].replace("Writer side:", "Node reads (bounded: one node shape; overlay lookup and HashColumn::get_value by contract): DbInner::get_node / get_node_children return the node queued in the commit overlay at that address if there is one and otherwise the node the column holds, unpacked into exactly the stored data and child order, and report absent exactly when neither has it. Writer side:")
